@@ -295,4 +295,4 @@ def run(ctx: Ctx) -> None:
                     error_free=st["error_free"], blocks=st["blocks"],
                     blocks_attaining_published_optimum=st["attained"])
     ctx.given("length", gen_ttp.length_cases(), check_length,
-              quick=2400, thorough=16 * 10000)
+              quick=2400, thorough=16 * 8000)
